@@ -145,6 +145,11 @@ Theorem C15_dialect_priority_refuted :
 Proof. destruct dialect_witness as [He [Hl [Hm Hc]]]. split; [exact He|split; [exact Hl|]]. rewrite Hm, Hc. discriminate. Qed.
 Print Assumptions C15_dialect_priority_refuted.
 
+Theorem C15_union_container_refuted :
+  exact E_uc v_uc t_uc = true /\ run_pack E_uc Mixin None t_uc v_uc <> run_pack E_uc Codec None t_uc v_uc.
+Proof. destruct union_container_witness as [He [Hm Hc]]. split; [exact He|]. rewrite Hm, Hc. discriminate. Qed.
+Print Assumptions C15_union_container_refuted.
+
 (* member order of a union is observable on the codec path, for decoding and for encoding: two shape types
    that differ only in the order of their members are different codecs (one-shot functions may not share them) *)
 Theorem C15_union_order_observable :
